@@ -148,6 +148,19 @@ def cli_abspath(ctx):
                 if r is not None and r[0] == 'class' and \
                         r[1].module is f.module:
                     nodes += [m for m in r[1].methods.values()]
+    # ... or be created with type(name, (Base,), {...})
+    for n in ast.walk(f.node):
+        if isinstance(n, ast.Call) and isinstance(n.func, ast.Name) and \
+                n.func.id == 'type' and len(n.args) == 3:
+            for b in ast.walk(n.args[1]):
+                if isinstance(b, (ast.Name, ast.Attribute)):
+                    try:
+                        r = repo.resolve_expr(f.module, b, None)
+                    except Exception:
+                        r = None
+                    if r is not None and r[0] == 'class' and \
+                            r[1].module is f.module:
+                        nodes += [m for m in r[1].methods.values()]
     for nd in nodes:
         for n in ast.walk(nd):
             if isinstance(n, ast.Call) and Q.callee_attr(n) == 'abspath' \
